@@ -1,0 +1,11 @@
+//go:build verif
+
+package x509
+
+// Verification hooks of group pkiverify (C08): read-only export of the pool's parent lookup.
+
+// VerifPkvFindVerifiedParents exports CertPool.findVerifiedParents: the indices (into
+// Certificates()) of the pool members the chain builder would try as parents of cert.
+func (s *CertPool) VerifPkvFindVerifiedParents(cert *Certificate) (parents []int, errCert *Certificate, err error) {
+	return s.findVerifiedParents(cert)
+}
